@@ -483,7 +483,7 @@ example : IOok ioToy := ioToy_ok
 example : GridOK ioToy g0 := g0_ok
 example : GridOK ioToy g1 :=
   ⟨⟨by decide, by decide, by decide, by decide, fun a v h => by simp [lookup, g1, g0] at h,
-    fun _ => ⟨by decide, by decide, 2143289344, by decide, by decide⟩⟩, by decide, by decide, by decide, by decide⟩
+    fun _ => ⟨by decide, by decide, 2143289344, by decide, by decide⟩⟩, by decide, by decide, by decide⟩
 
 
 set_option maxRecDepth 8000 in
